@@ -56,7 +56,7 @@ def recipe(c: Check):
                                    case="see cases_%s_*.v in work/C05" % d))
     # sanity: the branches the property names must have been reached, else the run proves nothing
     need = dict(sniff=dict(NSYSTLS=4, NSYSPROTO=1, NFNREJECT=254, NWSTLS=4, NWSPROTO=1, NKCPTLS=4, NKCPPROTO=1), policy=dict(NREQUIRE=1, NVERIFY=1),
-                wire=dict(NCLEARPAYLOAD=2, NHIDDENALL=2, NREJECTED=1, NEMPTYTOKEN=2), certs=dict(NREFUSED=3, NACCEPTED=2))
+                wire=dict(NCLEARPAYLOAD=2, NHIDDENALL=2, NREJECTED=1, NEMPTYTOKEN=2), certs=dict(NREFUSED=3, NACCEPTED=2, NQUICREFUSEDNOCERT=3, NQUICACCEPTED=2, NKCPREFUSED=3, NWSREFUSED=3))
     if c.harness_ok and not any(b["kind"] in ("driver", "correspondence-eval") for b in c.broken):
         for d, ks in need.items():
             for k, v in ks.items():
@@ -73,7 +73,7 @@ def recipe(c: Check):
              "relay, 15 high-entropy markers searched raw/hex/base64 (websocket client frames unmasked; for empty-token configurations also after "
              "opening the recorded cipher streams with the key derived from the empty string, compared with the model's public observer), observed set must lie between "
              "the model's certainly-visible and possibly-visible sets (they differ only under compression), plus first byte on the wire; "
-             "certs: certificate matrix. distinct = distinct case text / configuration; non-trivial = every case (each carries an observation)",
+             "certs: certificate matrix (6 server identities x 8 client settings) over each of tcp, kcp, websocket and quic with a real frpc. distinct = distinct case text / configuration; non-trivial = every case (each carries an observation)",
         assumptions=["AES-CFB (golib crypto), TLS (crypto/tls) and md5 hide their input: cryptography, trusted",
                      "crypto/tls enforces ClientAuth / RootCAs / ServerName as configured: oracle, observed by the certificate matrix",
                      "translator t5w classifies Go expressions syntactically (secret-bearing identifier names Token/SecretKey/sk/HTTPPassword...)"])
